@@ -88,3 +88,25 @@ META["C08"] = dict(META["C07"], design_ref="DESIGN.md section 6 C08")
 
 for _p in ("C03", "C05", "C06", "C17", "C18", "C20"):
     META[_p] = dict(META["C07"], design_ref="DESIGN.md section 6 " + _p)
+
+META["C19"] = {
+    "text": "PARTIAL. Proved in Coq, for ANY number of sessions, ANY interleaving of their operations, any spare capacities of the shared arrays and any array-growth function: "
+            "Go-slice semantics (array, offset, len, cap; append writes in place when capacity allows) for the pending-code buffer of vm/runner.go — every session's buffer always lies in "
+            "an array that session allocated (or is empty), so no write ever lands in a resource array and the shared arrays keep their content incl. spare capacity "
+            "(C19_no_write_to_shared); what each session can read of its buffer after every step equals the value-semantics result of its own operations (C19_sessions_refine_values) "
+            "and hence what it reads when run alone, even under a different growth function (C19_sessions_noninterfering); every Run of the validated VM model, for every program, state "
+            "and fuel, only does to the code what the trace language expresses (consume, append-from-resource, replace-by-copy, fresh line) and replaying it on the slice heap among "
+            "arbitrary other sessions yields the model's code (C19_vm_run_on_heap); the pre-repair CATCH (b = bh) refutes all of this on one goroutine: session 1 reads [2;2] instead of "
+            "[1;1] and the shared array is overwritten (C19_adopt_refuted; defect repaired by 800b081). Request level: the model's request functions see one session's engine/store "
+            "and the immutable resource only; any interleaving of requests gives every session its solo responses and final state (C19_requests_noninterfering_long/_persisted). "
+            "NOT proved, only validated by running the real code: goroutine interleavings below the request level, the Go memory model / data-race freedom (2-16 concurrent sessions "
+            "under the race detector, verdict = exit status), and that package-level variables are written by set-up calls only.",
+    "design_ref": "DESIGN.md section 6 C19",
+    "note": "Partial by nature: the theorem covers the aliasing discipline and request-level interleavings; the race-detector runs are a runtime check, reported as such and never counted "
+            "as an obligation. Trusted: Coq kernel, harness, Go race detector, the source scan of package-level variables. Tied to the code by (1) the library's buffer statements executed on "
+            "real slices vs the slice model incl. the interference of the old CATCH, (2) the real engine serving interleaved/concurrent sessions over shared slices with sentinel-filled "
+            "spare capacity vs EngineModel per session, solo runs and the initial arrays. Recorded observation outside the quantifier: vm.RegisterInputValidator's table is process-wide "
+            "(one engine's AddValidInput applies to every engine, a second engine's call fails, and calling it while serving is a data race).",
+    "technique": "Coq proof (ownership invariant + frame lemma for heap writes, refinement to value semantics by induction over schedules; induction over fuel for Run; generic interleaving lemma) "
+                 "+ refutation witness by vm_compute + model/implementation correspondence by vm_compute + concurrent runs under the Go race detector (runtime validation, not an obligation)",
+}
